@@ -119,11 +119,14 @@ def make_block(b, B, constraint_hook=None):
         blk = sp.Repeat(inner, cs)
     elif t == "merge":
         inner = [make_block(x, B, constraint_hook) for x in b["blocks"]]
-        blk = sp.Merge(inner, cs, _mode(b["mode"]), _align(b.get("alignment")))
+        # without constraints the library's default argument is used, as a user would write it
+        blk = (sp.Merge(inner, cs, _mode(b["mode"]), _align(b.get("alignment"))) if cs else
+               sp.Merge(inner, mode=_mode(b["mode"]), alignment=_align(b.get("alignment"))))
     elif t == "nest":
         outer = make_block(b["outer"], B, constraint_hook)
         inner = make_block(b["inner"], B, constraint_hook)
-        blk = sp.Nest(outer, inner, cs, _align(b.get("alignment")))
+        blk = (sp.Nest(outer, inner, cs, _align(b.get("alignment"))) if cs else
+               sp.Nest(outer, inner, alignment=_align(b.get("alignment"))))
     else:
         raise ValueError(t)
     B.blocks.append(blk)
